@@ -454,6 +454,12 @@ def model_predict(Ps):
                 x["ending"] = "known-defect"
                 continue
             d = parse_dump(last)
+            if d["obs"].startswith("run:") and d["obs"].endswith(":panic:send-closed"):
+                # a goroutine resumed into the panic of its blocked send: uncaught, the program ends here
+                x["live"] = False
+                x["ending"] = "panic:send on closed channel"
+                x["answers"] = o
+                continue
             if d["obs"].startswith("panic:"):
                 x["live"] = False
                 x["ending"] = {"panic:send-closed": "panic:send on closed channel", "panic:close-closed": "panic:close of closed channel"}.get(d["obs"], d["obs"])
@@ -509,10 +515,6 @@ def model_predict(Ps):
                         trace.append("s %d %s" % (g, f[3]) + (" %s %s" % (f[4], "true" if f[5] == "1" else "false") if len(f) > 4 else ""))
                 if f[2] == "panic":
                     pass
-        # a goroutine resumed into the "send on closed channel" panic ends the program
-        for ans in x["answers"]:
-            if ans.startswith("run:") and ":panic:send-closed" in ans.split(" ")[0]:
-                x["ending"] = "panic:send on closed channel"
         res.append((trace, x["ending"], x["script"]))
     return res
 
